@@ -238,7 +238,8 @@ theorem exempt_sites_exist :
       is analysed on its own as a root, for every argument list.
     * evalFunction `fn(expr, args, scope.Tx.Flags)` (twice: the struct and the evaluated list): the dispatch into the `Functions`
       table — every function value of the table is a root of family `args`.
-    * JsonObject `fn.Args` (`Fields: fn.Args` of a SelectClause): handed to View.Select as the field list; no index by position.
+    * JsonObject `fields` (the copy of fn.Args with plain arguments wrapped in a Field, `Fields: fields` of a SelectClause): handed to
+      View.Select as the field list; no index by position.
     * StringFormatter.Format `values` (`f.values = values`): stored in the formatter, never read again through the field
       (grep: `f.values` has no other occurrence); the parameter itself is the tracked slice of the sites of that function. -/
 def reviewedArgUnknownSites : List (String × Nat) :=
@@ -246,7 +247,7 @@ def reviewedArgUnknownSites : List (String × Nat) :=
    ("argunknown:lib/query/eval.go:evalFunction:expr.Args", 1),
    ("argunknown:lib/query/eval.go:evalFunction:fn(expr, args, scope.Tx.Flags)", 1),
    ("argunknown:lib/query/eval.go:evalFunction/args:fn(expr, args, scope.Tx.Flags)", 1),
-   ("argunknown:lib/query/function.go:JsonObject:fn.Args", 1),
+   ("argunknown:lib/query/function.go:JsonObject/fields:fields", 1),
    ("argunknown:lib/query/string_formatter.go:StringFormatter.Format:values", 1)]
 
 /-- **arg_unknown_sites_reviewed.**  Every use of a tracked slice without a rule is a reviewed one. -/
